@@ -201,6 +201,8 @@ def run(ctx):
     ruleset_settings_text(ctx)
     invoking_ruleset_rule(ctx)
     detector_walk_every_tick(ctx, "C05")
+    detector_group_runs_every_detector(ctx, "C05")
+    ruleset_state_is_per_instance(ctx)
     # locals / parameters the rules below refer to by name (a rename makes the analysis 'broken', never a violation)
     ctx.anchor(ctx.fn1('Oomd::Engine::Ruleset::runOnceImpl'), 'run_actions')
     ctx.anchor(ctx.fn1('Oomd::BaseKillPlugin::run'))
